@@ -64,6 +64,11 @@ def encErr : Err → Sx
   | .tableNotFound => .atom "tablenotfound"
   | .duplicateName => .atom "duplicatename"
   | .unsupportedWhen => .atom "unsupportedwhen"
+  | .badExprTag b => .list [.atom "badexprtag", sxNat b]
+  | .badEnum b => .list [.atom "badenum", sxNat b]
+  | .notImplemented => .atom "notimplemented"
+  | .depthExceeded => .atom "depthexceeded"
+  | .zeroColumnRows => .atom "zerocolumnrows"
 
 /-- the model's `parse_data_type` verdict on a catalog type text: `none`, a canonical type name,
     or `?` when the text is not ASCII (Rust upper-cases with Unicode rules) -/
@@ -82,9 +87,13 @@ def encCatalog (c : Catalog) : List Sx :=
       .list (hx t.name :: t.cols.map (fun c => .list [hx c.name, hx c.typeStr, sxBool c.nullable, .atom (typeCanon c.typeStr)])))),
     .list (.atom "indexes" :: c.indexes.map (fun i =>
       .list (hx i.name :: hx i.table :: sxBool i.unique ::
-        i.cols.map (fun c => .list [hx c.name, sxBool c.desc])))),
+        i.cols.map (fun c => .list [hx c.name, sxBool c.desc,
+          match c.pfx with | some n => sxNat n | none => .atom "none"])))),
     .list (.atom "triggers" :: c.triggers.map (fun t =>
-      .list [hx t.name, hx t.table, sxNat t.timing, sxNat t.event, sxNat t.granularity, hx t.sql])) ]
+      .list [hx t.name, hx t.table, sxNat t.timing, sxNat t.event, sxNat t.granularity, hx t.sql,
+        match t.when with
+        | some w => .list [sxNat w.nodes, sxNat w.depth]
+        | none => .atom "none"])) ]
 
 def encFile (f : FileContent) : List Sx :=
   encCatalog f.catalog ++
@@ -116,7 +125,8 @@ def fFile (f : FileContent) : List (String × Bytes) :=
   ++ fCounted fStr f.catalog.schemas ++ fCounted fStr f.catalog.roles
   ++ fCounted (fun t => fStr t.name ++ fCounted (fun c => fStr c.name ++ [("typelen", leBytes 4 c.typeStr.length), ("type", c.typeStr)] ++ [("flag", wbool c.nullable)]) t.cols) f.catalog.tables
   ++ fCounted (fun i => fStr i.name ++ fStr i.table ++ [("flag", wbool i.unique)]
-        ++ fCounted (fun c => fStr c.name ++ [("flag", [if c.desc then 1 else 0])]) i.cols) f.catalog.indexes
+        ++ fCounted (fun c => fStr c.name ++ [("flag", [dirByte c])]
+            ++ (match c.pfx with | some n => [("body", leBytes 8 n)] | none => [])) i.cols) f.catalog.indexes
   ++ fCounted fTrig f.catalog.triggers
   ++ (f.data.map (fun t => fStr t.name ++ [("count", leBytes 8 t.rows.length)]
         ++ (t.rows.map (fun r => (r.map fVal).flatten)).flatten)).flatten
@@ -162,6 +172,35 @@ def handle : List Sx → Sx
         let bytes := (fs.map (·.2)).flatten
         if bytes ++ rest == b then .list (.atom "layout" :: layout fs)
         else .atom "layout-mismatch"
+      | .error e => .list [.atom "err", encErr e]
+    | none => .atom "bad-request"
+  | [.atom "sections", .atom h] =>
+    -- byte offsets at which each section of the catalog ends (header, schemas, roles, tables,
+    -- indexes, triggers), as far as the file can be read
+    match unhx h with
+    | some b =>
+      let step {α : Type} (rd : Reader α) (st : List Sx × Option Bytes) : List Sx × Option Bytes :=
+        match st with
+        | (acc, some inp) =>
+          match (rd inp).res with
+          | .ok (_, rest) => (acc ++ [sxNat (b.length - rest.length)], some rest)
+          | .error _ => (acc, none)
+        | st => st
+      let st : List Sx × Option Bytes := ([], some b)
+      let st := step readHeader st
+      let st := step (readCounted readString) st
+      let st := step (readCounted readString) st
+      let st := step (readCounted readTableDef) st
+      let st := step (readCounted readIdxDef) st
+      let st := step (readCounted readTrig) st
+      .list (.atom "sections" :: st.1)
+    | none => .atom "bad-request"
+  | [.atom "readexpr", .atom h] =>
+    match unhx h with
+    | some b =>
+      let o := readExpression b
+      match o.res with
+      | .ok (e, rest) => .list [.atom "ok", sxNat e.nodes, sxNat e.depth, sxNat rest.length]
       | .error e => .list [.atom "err", encErr e]
     | none => .atom "bad-request"
   | [.atom "parsetype", .atom h] =>
